@@ -426,14 +426,14 @@ class SshString(ParsableBase):
     def _parse(cls, parsable):
         parser = ParserBinary(parsable)
 
-        parser.parse_string('value', 4, 'ascii')
+        parser.parse_string('value', 4, 'utf-8')
 
         return cls(**parser), parser.parsed_length
 
     def compose(self):
         composer = ComposerBinary()
 
-        composer.compose_string(self.value, 'ascii', 4)
+        composer.compose_string(self.value, 'utf-8', 4)
 
         return composer.composed
 
@@ -798,7 +798,7 @@ class SshHostCertificateV00Base(ParsableBase, SshCertificateBase):  # pylint: di
     @classmethod
     def _parse_host_cert_params(cls, parser):
         parser.parse_parsable('certificate_type', SshCertTypeFactory)
-        parser.parse_string('key_id', 4, 'ascii')
+        parser.parse_string('key_id', 4, 'utf-8')
         parser.parse_parsable('valid_principals', SshCertValidPrincipals)
 
         parser.parse_timestamp('valid_after')
@@ -812,7 +812,7 @@ class SshHostCertificateV00Base(ParsableBase, SshCertificateBase):  # pylint: di
 
     def _compose_host_cert_params(self, composer):
         composer.compose_parsable(self.certificate_type)
-        composer.compose_string(self.key_id, 'ascii', 4)
+        composer.compose_string(self.key_id, 'utf-8', 4)
         composer.compose_parsable(self.valid_principals)
 
         composer.compose_timestamp(self.valid_after)
@@ -969,7 +969,7 @@ class SshHostCertificateV01Base(ParsableBase, SshCertificateBase):  # pylint: di
     def _parse_host_cert_params(cls, parser):
         parser.parse_numeric('serial', 8)
         parser.parse_parsable('certificate_type', SshCertTypeFactory)
-        parser.parse_string('key_id', 4, 'ascii')
+        parser.parse_string('key_id', 4, 'utf-8')
         parser.parse_parsable('valid_principals', SshCertValidPrincipals)
 
         parser.parse_timestamp('valid_after')
@@ -984,7 +984,7 @@ class SshHostCertificateV01Base(ParsableBase, SshCertificateBase):  # pylint: di
     def _compose_host_cert_params(self, composer):
         composer.compose_numeric(self.serial, 8)
         composer.compose_parsable(self.certificate_type)
-        composer.compose_string(self.key_id, 'ascii', 4)
+        composer.compose_string(self.key_id, 'utf-8', 4)
         composer.compose_parsable(self.valid_principals)
 
         composer.compose_timestamp(self.valid_after)
